@@ -364,7 +364,7 @@ ADDENDA = {
     "C12": "After a refusal the same encoder object is asked again; names with letters that upper() turns into ASCII.",
     "C09": "Multi-byte characters of the label itself at read-block boundaries (64 ... 8192) through every byte-wise entry point; streams the caller has already read a header line from; '#' comments glued to END; characters str.splitlines() takes for line boundaries.",
     "C02": "Same generator as C01 (see there).",
-    "C01": "Value generator: Latin-1 parameter names, strings around comment delimiters, quote + line break, zone offsets below one hour and of 10/20/23 hours, units with Python-only white space at their ends.",
+    "C01": "Value generator: Latin-1 parameter names, strings around comment delimiters, quote + line break, zone offsets below one hour and of 10/20/23 hours, units with Python-only white space at their ends. Pair sweep: a string with a single quote character next to a long dashed string that has to wrap.",
     "C03": "A quarter of the loads are preceded by a load of the same text "
            "through a differently configured parser (Decimal/Fraction reals, "
            "other quantity class, caller's containers, another dialect). "
@@ -378,7 +378,7 @@ ADDENDA = {
            "number-heavy sources, numbers beyond what int/float/Decimal take, "
            "labels with thousands of different words, and half of the workers "
            "keep one parser object per configuration for all their loads. "
-           "Sources keyword look-alikes and lone surrogates.",
+           "Sources keyword look-alikes and lone surrogates. Labels handed over as bytes / binary streams / files with a multi-byte character across a read-block boundary.",
     "C07": "A third source of t0 are texts written by the four encoders "
            "(random options) from generated modules (cross-dialect chains). A fourth source slides a word that only Python takes for white space (or a dash) through the wrap points of a long string.",
     "C08": "The default loader is called five ways: fresh OmniParser, "
@@ -397,10 +397,10 @@ ADDENDA = {
     "C13": "Also modules in the multidict-based containers of pvl.new through "
            "pvl.new.dumps, and values of the caller's own classes with "
            "add_quantity_cls called on other encoder objects between dumps. "
-           "The same encoder object also writes case-swapped twins of the module between the dumps.",
+           "The same encoder object also writes case-swapped twins of the module between the dumps. Strings near the border of the quoting decision are written before and after the whole process history of loads and dumps.",
     "C15": "Five loader routes: the dialect's parser, loads/load with "
            "grammar=, loads/load with the dialect's decoder alone. "
-           "Labels handed over as bytes with data behind END and a disallowed multi-byte character at a read-block boundary; the character behind a dash continuation (default grammar, three routes).",
+           "Labels handed over as bytes with data behind END and a disallowed multi-byte character at a read-block boundary; the character behind a dash continuation (default grammar, three routes). The last characters of a text without END.",
     "C16": "Also two user-subclass parser configurations and a family of "
            "modules around refusals raised part-way through a nested value. "
            "One parser object per configuration fed 700 texts, six of seven failing inside a nested value (soak); every module an instance handed back is looked at again after every later call; wrap-hazard modules. Texts with dash continuations; modules with strings one or another encoder has no notation for.",
@@ -419,7 +419,7 @@ ADDENDA = {
            "Also bytes that are not all decodable (data behind END, a stray byte inside) on both sides.",
     "C20": "Also 19 small labels around what one or another encoder refuses, "
            "in a shuffled order (the tools keep one encoder per format). "
-           "27 hazard labels in all (units only some encoders take, ParseError texts), each also with -v, -vv, -v -v -v.",
+           "27 hazard labels in all (units only some encoders take, ParseError texts), each also with -v, -vv, -v -v -v. Invocations of pvl_validate with 9 to 51 files.",
 }
 HISTORY_NOTE = (" Every second worker process first lives through a history "
                 "of ordinary calls in other dialects and configurations "
